@@ -13,7 +13,7 @@ Definition fd_consts_statement : Prop :=
   p_lsf = (488, 1) /\ p_stream = (296, 2) /\ p_bert = (402, 2) /\ p_packet = (420, 3) /\
   update_state_indices = [111; 109; 109; 110] /\ update_state_cases = [(1, 0); (2, 1)] /\
   frag_shift = 5%N /\ frag_mask = 7%N /\ frag_byte = 5 /\ frag_copy_len = 5 /\ frag_stride = 5 /\
-  seg_mask = 63%N /\ seg_full = 63%N /\ lich_costs = [(-1); (-1); 0; 128]%Z /\
+  seg_mask = 63%N /\ seg_full = 63%N /\ lich_costs = [128; (-1); (-1); 0; 128]%Z /\
   stream_offset = 96 /\ eof_byte = 25 /\ eof_mask = 128%N /\
   unpack_lich_literals = [0; 0; 4; 0; 0; 24; 1; 24; 0; 0; 12; 1; 8; 255; 4; 15; 4]%N.
 
